@@ -83,6 +83,7 @@ var interpPkgPrefixes = []string{
 	"path",
 	"sort",
 	"slices",
+	"time",
 }
 
 var interpFuncs = map[string]bool{
